@@ -335,8 +335,11 @@ func VH_Conservation() {
 				}
 			case 3:
 				r = vRec{typ: vNeutralTypes[vChoose("neutral", len(vNeutralTypes))], data: map[string]string{"cwd": val(), "proctitle": val(), "y" + strconv.Itoa(i): val()}}
-				if vChoose("collide", 2) == 1 {
+				switch vChoose("collide", 3) {
+				case 1:
 					r.data["exe"] = val() // collides with the SYSCALL record's key
+				case 2:
+					r.data["result"] = val() // the record's own outcome (res=...), next to the SYSCALL's
 				}
 			case 4:
 				r = vRec{typ: auparse.AUDIT_PATH, bad: true} // a record whose Data() fails
@@ -618,6 +621,10 @@ func init() { vEntries["VH_ConcurrentResolve"] = VH_ConcurrentResolve }
 func VH_ConcurrentResolve() {
 	vInstallTableImage()
 	users, groups := NewUserCache(1000000000*60), NewGroupCache(1000000000*60)
+	if vParam("expired", 0) != 0 {
+		// entries are out of date the moment they are stored: every lookup takes the refresh path
+		users, groups = NewUserCache(-1), NewGroupCache(-1)
+	}
 	n := vParam("threads", 2)
 	events := make([]*Event, n)
 	digests := make([]string, n)
